@@ -11,6 +11,7 @@ import (
 	"github.com/Syuparn/pangaea/parser"
 	"github.com/Syuparn/pangaea/props"
 	rt "github.com/Syuparn/pangaea/zzverifrt"
+	"github.com/macrat/simplexer"
 )
 
 // Env is the bootstrapped constants environment (built once per worker / replay process).
@@ -44,6 +45,7 @@ func init() {
 	rt.Register("H_C11_arr", H_C11_arr)
 	rt.Register("H_C11_str", H_C11_str)
 	rt.Register("H_C11_idx", H_C11_idx)
+	rt.Register("H_C16_scan", H_C16_scan)
 	rt.Register("H_C02_infix", H_C02_infix)
 	rt.Register("H_C02_mixed", H_C02_mixed)
 	rt.Register("H_C10_bin", H_C10_bin)
@@ -52,6 +54,7 @@ func init() {
 	rt.Register("H_C10_pow_pool", H_C10_pow_pool)
 }
 
+func H_C16_scan() { simplexer.VH_C16_scan(rt.Param(0) == 1, int64(rt.Param(1)), rt.Param(2) == 1, rt.Param(3)) }
 func H_C02_infix() { parser.VH_C02_infix(rt.Param(0), rt.Param(1), rt.Param(2)) }
 func H_C02_mixed() { parser.VH_C02_mixed(rt.Param(0)) }
 func H_C10_bin() { props.VH_C10_bin(rt.Param(0)) }
